@@ -91,8 +91,325 @@ theorem validation_error_typed {α : Type} (ve : VErr) (e : Err)
     (h : (raiseValidation ve : Outcome α) = .err e) : e.typed = true ∧ e.reason = ve.reason := by
   simp [raiseValidation] at h; subst h; exact ⟨rfl, rfl⟩
 
+/-! ### the lift: every error `Unpack` returns is typed
+
+`Typed x`: if `x` is an error, it is a `ucfg.Error`.  The combinators below carry the statement through the code of the
+typed unpacker; one induction over the fuel proves it for all eight mutually recursive functions and for every target
+type that does not contain `interface{}` (the generic `reify` of the reference-free model marks references with an
+untyped error, which is the one place the model itself is outside its domain). -/
+
+def Typed {α : Type} (x : Outcome α) : Prop := ∀ e, x = .err e → e.typed = true
+
+theorem typed_ok {α : Type} (a : α) : Typed (.ok a : Outcome α) := by intro e h; cases h
+theorem typed_panic {α : Type} (s : String) : Typed (.panic s : Outcome α) := by intro e h; cases h
+theorem typed_fuel {α : Type} : Typed (.fuel : Outcome α) := by intro e h; cases h
+theorem typed_raise {α : Type} (r : Reason) : Typed (Outcome.raise r : Outcome α) := by
+  intro e h; simp [Outcome.raise] at h; subst h; rfl
+theorem typed_raiseValidation {α : Type} (ve : VErr) : Typed (raiseValidation ve : Outcome α) := by
+  intro e h; exact (validation_error_typed ve e h).1
+theorem typed_err {α : Type} (e : Err) (h : e.typed = true) : Typed (.err e : Outcome α) := by
+  intro e' h'; cases h'; exact h
+theorem typed_bind {α β : Type} (x : Outcome α) (f : α → Outcome β) (hx : Typed x) (hf : ∀ a, Typed (f a)) :
+    Typed (x >>= f) := by
+  intro e h
+  cases x with
+  | ok a => exact hf a e h
+  | err e' => simp at h; subst h; exact hx e' rfl
+  | panic s => simp at h
+  | fuel => simp at h
+theorem typed_seq {α β : Type} (x : Outcome α) (y : Outcome β) (hx : Typed x) (hy : Typed y) : Typed (x *> y) := by
+  intro e h
+  cases x with
+  | ok a => exact hy e h
+  | err e1 => cases h; exact hx _ rfl
+  | panic s => cases h
+  | fuel => cases h
+
+/-- a value that is not an error -/
+theorem typed_of_not_err {α : Type} (x : Outcome α) (h : ∀ e, x = .err e → False) : Typed x := by
+  intro e he; exact (h e he).elim
+
+mutual
+/-- no interface{} anywhere in the type -/
+def _root_.Ucfg.Ty.noIface : Ty → Bool
+  | .iface => false
+  | .ptr t => t.noIface
+  | .slice t => t.noIface
+  | .array _ t => t.noIface
+  | .map t => t.noIface
+  | .strct fs => noIfaceFields fs
+  | _ => true
+def noIfaceFields : List (String × String × String × Ty) → Bool
+  | [] => true
+  | (_, _, _, t) :: r => t.noIface && noIfaceFields r
+end
+
+/-- the routine part of every step: split the code, close the leaves that raise typed errors or do not fail -/
+macro "typed_step" : tactic => `(tactic|
+  repeat' (first
+    | exact typed_ok _ | exact typed_panic _ | exact typed_fuel | exact typed_raise _ | exact typed_raiseValidation _
+    | exact typed_err _ rfl
+    | assumption
+    | (apply typed_err; apply unpack_conversion_error_typed; assumption)
+    | (apply typed_err; apply fieldGet_error_typed; assumption)
+    | (refine typed_bind _ _ ?_ (fun _ => ?_))
+    | (refine typed_seq _ _ ?_ ?_)
+    | split
+    | (intro _)))
+
+theorem typed_accessField (o : Opts) (g tag vtag : String) : Typed (accessField o g tag vtag) := by
+  unfold accessField
+  typed_step
+
+theorem typed_finishArray (std : Stdlib) (fo : FOpts) (v : GoVal) : Typed (finishArray std fo v) := by
+  unfold finishArray
+  dsimp only
+  typed_step
+
+theorem typed_reifyPrimitiveT (std : Stdlib) (fo : FOpts) (ty : Ty) (v : Val) : Typed (reifyPrimitiveT std fo ty v) := by
+  unfold reifyPrimitiveT
+  typed_step
+
+theorem typed_pathGet : ∀ (p : List Field) (cur : Val), Typed (pathGet tcPlain p cur)
+  | [], cur => by simp only [pathGet]; exact typed_panic _
+  | [f], cur => by
+    simp only [pathGet]
+    split
+    · exact typed_raise _
+    · rename_i r hr
+      intro e he
+      exact (hr e he).elim
+  | f :: g :: rest, cur => by
+    simp only [pathGet]
+    split
+    · exact typed_raise _
+    · exact typed_pathGet (g :: rest) _
+    · rename_i e he
+      exact typed_err e (fieldGet_error_typed f cur e he)
+    · exact typed_panic _
+    · exact typed_fuel
+
+structure TClaims (std : Stdlib) (n : Nat) : Prop where
+  merge : ∀ (fo : FOpts) (ty : Ty) (old : GoVal) (v : Val), ty.noIface = true → Typed (mergeValue std n fo ty old v)
+  reify : ∀ (fo : FOpts) (ty : Ty) (v : Val), ty.noIface = true → Typed (reifyValue std n fo ty v)
+  strct : ∀ (o : Opts) (fs : List (String × String × String × Ty)) (xs : List GoVal) (cfg : Val), noIfaceFields fs = true →
+    Typed (reifyStructT std n o fs xs cfg)
+  getf : ∀ (fo : FOpts) (t : Ty) (x : GoVal) (cfg : Val) (name : String), t.noIface = true →
+    Typed (getField' std n fo t x cfg name)
+  slice : ∀ (fo : FOpts) (t : Ty) (old : Option (List GoVal)) (v : Val), t.noIface = true →
+    Typed (sliceMerge std n fo t old v)
+  arr : ∀ (fo : FOpts) (t : Ty) (start : Nat) (xs : List GoVal) (vs : List Val), t.noIface = true →
+    Typed (doArray std n fo t start xs vs)
+  mapc : ∀ (o : Opts) (vs : List VTag) (t : Ty) (m0 : Option (List (String × GoVal))) (sub : Val), t.noIface = true →
+    Typed (reifyMapT std n o vs t m0 sub)
+  ents : ∀ (o : Opts) (t : Ty) (m : List (String × GoVal)) (d : List (String × Val)), t.noIface = true →
+    Typed (mapEntries std n o t m d)
+
+/-- `typed_step` plus the claims one level below -/
+macro "typed_ih" : tactic => `(tactic|
+  repeat' (first
+    | exact typed_ok _ | exact typed_panic _ | exact typed_fuel | exact typed_raise _ | exact typed_raiseValidation _
+    | exact typed_err _ rfl
+    | exact typed_reifyPrimitiveT _ _ _ _ | exact typed_finishArray _ _ _ | exact typed_accessField _ _ _ _
+    | assumption
+    | (apply typed_err; apply unpack_conversion_error_typed; assumption)
+    | (apply typed_err; apply fieldGet_error_typed; assumption)
+    | (apply TClaims.merge; assumption)
+    | (apply TClaims.reify; assumption)
+    | (apply TClaims.strct; assumption)
+    | (apply TClaims.getf; assumption)
+    | (apply TClaims.slice; assumption)
+    | (apply TClaims.arr; assumption)
+    | (apply TClaims.mapc; assumption)
+    | (apply TClaims.ents; assumption)
+    | (refine typed_bind _ _ ?_ (fun _ => ?_))
+    | (refine typed_seq _ _ ?_ ?_)
+    | split
+    | (intro _)))
+
+theorem t_arr_step (std : Stdlib) (n : Nat) (IH : TClaims std n) (fo : FOpts) (t : Ty) (start : Nat) (xs : List GoVal)
+    (vs : List Val) (ht : t.noIface = true) : Typed (doArray std (n+1) fo t start xs vs) := by
+  cases xs with
+  | nil => simp only [doArray]; exact typed_ok _
+  | cons x xr =>
+    cases start with
+    | succ st => simp only [doArray]; typed_ih
+    | zero =>
+      cases vs with
+      | nil => simp only [doArray]; typed_ih
+      | cons v vr => simp only [doArray]; typed_ih
+
+theorem t_slice_step (std : Stdlib) (n : Nat) (IH : TClaims std n) (fo : FOpts) (t : Ty) (old : Option (List GoVal))
+    (v : Val) (ht : t.noIface = true) : Typed (sliceMerge std (n+1) fo t old v) := by
+  cases old with
+  | none => simp only [sliceMerge]; typed_ih
+  | some ol => simp only [sliceMerge]; typed_ih
+
+theorem t_ents_step (std : Stdlib) (n : Nat) (IH : TClaims std n) (o : Opts) (t : Ty) (m : List (String × GoVal))
+    (d : List (String × Val)) (ht : t.noIface = true) : Typed (mapEntries std (n+1) o t m d) := by
+  cases d with
+  | nil => simp only [mapEntries]; exact typed_ok _
+  | cons kv r =>
+    obtain ⟨k, v⟩ := kv
+    simp only [mapEntries]
+    typed_ih
+
+theorem t_mapc_step (std : Stdlib) (n : Nat) (IH : TClaims std n) (o : Opts) (vs : List VTag) (t : Ty)
+    (m0 : Option (List (String × GoVal))) (sub : Val) (ht : t.noIface = true) :
+    Typed (reifyMapT std (n+1) o vs t m0 sub) := by
+  simp only [reifyMapT]
+  typed_ih
+
+theorem t_getf_step (std : Stdlib) (n : Nat) (IH : TClaims std n) (fo : FOpts) (t : Ty) (x : GoVal) (cfg : Val)
+    (name : String) (ht : t.noIface = true) : Typed (getField' std (n+1) fo t x cfg name) := by
+  unfold getField'
+  dsimp only
+  have hp := typed_pathGet (parsePathOpts name fo.opts) cfg
+  cases hpg : pathGet tcPlain (parsePathOpts name fo.opts) cfg with
+  | ok vo => dsimp only; typed_ih
+  | err e =>
+    dsimp only
+    have he : e.typed = true := hp e hpg
+    by_cases hm : e.reason = Reason.missing
+    · simp only [hm, if_true]; typed_ih
+    · simp only [hm, if_false]; exact typed_err e he
+  | panic s => exact typed_panic _
+  | fuel => exact typed_fuel
+
+theorem t_strct_step (std : Stdlib) (n : Nat) (IH : TClaims std n) (o : Opts)
+    (fs : List (String × String × String × Ty)) (xs : List GoVal) (cfg : Val) (hf : noIfaceFields fs = true) :
+    Typed (reifyStructT std (n+1) o fs xs cfg) := by
+  cases fs with
+  | nil => simp only [reifyStructT]; exact typed_ok _
+  | cons f fr =>
+    obtain ⟨g, tag, vtag, t⟩ := f
+    simp only [noIfaceFields, Bool.and_eq_true] at hf
+    obtain ⟨ht, hfr⟩ := hf
+    cases xs with
+    | nil => simp only [reifyStructT]; exact typed_ok _
+    | cons x xr =>
+      unfold reifyStructT
+      refine typed_bind _ _ (typed_accessField _ _ _ _) (fun fio => ?_)
+      cases fio with
+      | none => dsimp only; typed_ih
+      | some fi =>
+        dsimp only
+        refine typed_bind _ _ ?_ (fun _ => ?_)
+        · by_cases hsq : fi.tag.squash = true
+          · simp only [hsq, if_true]
+            refine typed_seq _ _ ?_ ?_
+            · typed_ih
+            · typed_ih
+              all_goals simp_all [Ty.noIface]
+          · simp only [hsq, Bool.false_eq_true, if_false]
+            typed_ih
+        · typed_ih
+
+theorem t_reify_step (std : Stdlib) (n : Nat) (IH : TClaims std n) (fo : FOpts) (ty : Ty) (v : Val)
+    (ht : ty.noIface = true) : Typed (reifyValue std (n+1) fo ty v) := by
+  cases ty with
+  | iface => simp [Ty.noIface] at ht
+  | ptr t => simp only [Ty.noIface] at ht; simp only [reifyValue]; typed_ih
+  | slice t => simp only [Ty.noIface] at ht; simp only [reifyValue]; typed_ih
+  | array k t => simp only [reifyValue]; typed_ih
+  | map t => simp only [Ty.noIface] at ht; simp only [reifyValue]; typed_ih
+  | strct fs => simp only [Ty.noIface] at ht; simp only [reifyValue]; typed_ih
+  | prim k => simp only [reifyValue]; typed_ih
+  | regexp => simp only [reifyValue]; typed_ih
+  | config => simp only [reifyValue]; typed_ih
+  | unsupported => simp only [reifyValue]; typed_ih
+  | badmap => simp only [reifyValue]; typed_ih
+
+theorem t_merge_step (std : Stdlib) (n : Nat) (IH : TClaims std n) (fo : FOpts) (ty : Ty) (old : GoVal) (v : Val)
+    (ht : ty.noIface = true) : Typed (mergeValue std (n+1) fo ty old v) := by
+  cases ty with
+  | iface => simp [Ty.noIface] at ht
+  | ptr t =>
+    have ht' : t.noIface = true := by simpa [Ty.noIface] using ht
+    cases old <;> simp only [mergeValue] <;> typed_ih <;> simp_all [Ty.noIface, noIfaceFields]
+  | slice t =>
+    have ht' : t.noIface = true := by simpa [Ty.noIface] using ht
+    cases old <;> simp only [mergeValue] <;> typed_ih <;> simp_all [Ty.noIface, noIfaceFields]
+  | array k t =>
+    have ht' : t.noIface = true := by simpa [Ty.noIface] using ht
+    cases old <;> simp only [mergeValue] <;> typed_ih <;> simp_all [Ty.noIface, noIfaceFields]
+  | map t =>
+    have ht' : t.noIface = true := by simpa [Ty.noIface] using ht
+    cases old <;> simp only [mergeValue] <;> typed_ih <;> simp_all [Ty.noIface, noIfaceFields]
+  | strct fs =>
+    have ht' : noIfaceFields fs = true := by simpa [Ty.noIface] using ht
+    cases old <;> simp only [mergeValue] <;> typed_ih <;> simp_all [Ty.noIface, noIfaceFields]
+  | prim k => cases old <;> simp only [mergeValue] <;> typed_ih <;> simp_all [Ty.noIface, noIfaceFields]
+  | regexp => cases old <;> simp only [mergeValue] <;> typed_ih <;> simp_all [Ty.noIface, noIfaceFields]
+  | config => cases old <;> simp only [mergeValue] <;> typed_ih <;> simp_all [Ty.noIface, noIfaceFields]
+  | unsupported => cases old <;> simp only [mergeValue] <;> typed_ih <;> simp_all [Ty.noIface, noIfaceFields]
+  | badmap => cases old <;> simp only [mergeValue] <;> typed_ih <;> simp_all [Ty.noIface, noIfaceFields]
+
+theorem tclaims (std : Stdlib) : ∀ n, TClaims std n := by
+  intro n
+  induction n with
+  | zero =>
+    refine ⟨?_, ?_, ?_, ?_, ?_, ?_, ?_, ?_⟩
+    · intro fo ty old v _; simp only [mergeValue]; exact typed_fuel
+    · intro fo ty v _; simp only [reifyValue]; exact typed_fuel
+    · intro o fs xs cfg _; simp only [reifyStructT]; exact typed_fuel
+    · intro fo t x cfg name _; simp only [getField']; exact typed_fuel
+    · intro fo t old v _; simp only [sliceMerge]; exact typed_fuel
+    · intro fo t start xs vs _; simp only [doArray]; exact typed_fuel
+    · intro o vs t m0 sub _; simp only [reifyMapT]; exact typed_fuel
+    · intro o t m d _; simp only [mapEntries]; exact typed_fuel
+  | succ k ih =>
+    exact ⟨t_merge_step std k ih, t_reify_step std k ih, t_strct_step std k ih, t_getf_step std k ih,
+      t_slice_step std k ih, t_arr_step std k ih, t_mapc_step std k ih, t_ents_step std k ih⟩
+
+/-- **C14, lifted.** Whatever the target type (anything without `interface{}`: structs with any tags incl. inline, pointers,
+slices, arrays, maps, regexp, Config, unsupported kinds), the pre-filled value, the options and the configuration:
+when `Unpack` fails, the error is a `ucfg.Error`. -/
+theorem unpack_error_typed (std : Stdlib) (o : Opts) : ∀ (ty : Ty) (old : GoVal) (cfg : Val), ty.noIface = true →
+    Typed (unpack std o ty old cfg)
+  | .ptr t, old, cfg, h => by
+    have IH := tclaims std unpackFuel
+    have ht : t.noIface = true := by simpa [Ty.noIface] using h
+    unfold unpack
+    repeat' split
+    all_goals first
+      | exact typed_raise _
+      | exact IH.merge _ _ _ _ h
+      | exact typed_bind _ _ (unpack_error_typed std o t _ cfg ht) (fun _ => typed_ok _)
+  | .map t, old, cfg, h => by
+    have IH := tclaims std unpackFuel
+    have ht : t.noIface = true := by simpa [Ty.noIface] using h
+    unfold unpack
+    typed_ih
+  | .strct fs, old, cfg, h => by
+    have IH := tclaims std unpackFuel
+    have ht : noIfaceFields fs = true := by simpa [Ty.noIface] using h
+    unfold unpack
+    typed_ih
+  | .slice t, old, cfg, h => by
+    have IH := tclaims std unpackFuel
+    unfold unpack
+    exact IH.merge _ _ _ _ h
+  | .array k t, old, cfg, h => by
+    have IH := tclaims std unpackFuel
+    unfold unpack
+    exact IH.merge _ _ _ _ h
+  | .config, old, cfg, _ => by unfold unpack; typed_ih
+  | .prim k, old, cfg, _ => by unfold unpack; exact typed_raise _
+  | .regexp, old, cfg, _ => by unfold unpack; exact typed_raise _
+  | .iface, old, cfg, h => by simp [Ty.noIface] at h
+  | .unsupported, old, cfg, _ => by unfold unpack; exact typed_raise _
+  | .badmap, old, cfg, _ => by unfold unpack; exact typed_raise _
+
+/-- in the words of the statement: an error that comes back is typed -/
+theorem unpack_failure_is_ucfg_error (std : Stdlib) (o : Opts) (ty : Ty) (old : GoVal) (cfg : Val) (e : Err)
+    (hty : ty.noIface = true) (h : unpack std o ty old cfg = .err e) : e.typed = true :=
+  unpack_error_typed std o ty old cfg hty e h
+
+
 /-! non-vacuity -/
 example : (reifyPrim default (.int 8) (.int 300)).isErr = true := by decide
 example : (fieldGet tcPlain (.named "a") (.prim (.int 1))).isErr = true := by decide
+example : (Ty.strct [("A", "a", "min=1", .ptr (.map (.slice (.prim (.int 64))))), ("R", "r,inline", "", .regexp)]).noIface = true := by decide
 
 end Ucfg.C14
